@@ -30,6 +30,10 @@ type C16Msg struct {
 type C16Round struct {
 	Send    []C16Msg `json:"send"`    // owner -> device logical messages of this round
 	Replies []C16Msg `json:"replies"` // device -> owner replies produced for the round
+	// ViaYield: the device module does not answer from Receive but from its
+	// next Yield callback; with an empty Send the replies are device-initiated
+	// (written from Yield once the module is active and the round is reached).
+	ViaYield bool `json:"via_yield,omitempty"`
 }
 
 type C16Module struct {
@@ -64,6 +68,7 @@ func (p *c16) NewPlan() any  { return &C16Plan{} }
 func (p *c16) Rule() string {
 	return "real TO2 (EC keys; simstore or sqlite) with generated module scripts: 0-3 owner modules (each present on the device or not), per module 1-3 rounds of owner->device messages of 1..6000 bytes (chunked by the module to the device MTU, using blockPeer when a round spans several protocol messages) and device->owner replies of 1..6000 bytes written in several pieces with yields and forced message breaks; 0-200 additional device module names of varying length; device and owner MTUs from 128 to 65535 (biased to small values); the device's devmod writer, module handler and send/receive loop are interleaved by the seeded scheduler through the verif hooks; oracle: stream model per (module, message) in both directions, devmod descriptors and module list in the owner's session state, strict module sequencing, activation before Receive and inactive answers for unknown modules, per-message MTU compliance measured on the tunnel plaintext, Done right after IsDone; non-trivial = at least one module exchanged data and >=2 tasks were runnable at some step; distinct = distinct (script, schedule, outcome)"
 }
+func (p *c16) DeadlockIsViolation() bool { return true }
 func (p *c16) Exhaustive(string) bool { return false }
 func (p *c16) Components() map[string][]string {
 	return map[string][]string{
@@ -142,7 +147,8 @@ func (p *c16) Plan(tier string, seed uint64, i int) any {
 			for k, n := 0, r.IntN(4); k < n; k++ {
 				round.Replies = append(round.Replies, C16Msg{Size: size(), Splits: 1 + r.IntN(4), Break: r.IntN(5) == 0})
 			}
-			if len(round.Send) == 0 && len(round.Replies) > 0 {
+			round.ViaYield = len(round.Replies) > 0 && r.IntN(3) == 0
+			if len(round.Send) == 0 && len(round.Replies) > 0 && !round.ViaYield {
 				round.Send = []C16Msg{{Size: size()}}
 			}
 			mod.Rounds = append(mod.Rounds, round)
@@ -361,7 +367,8 @@ func (m *c16Owner) ProduceInfo(ctx context.Context, pr *serviceinfo.Producer) (b
 			return false, false, nil
 		}
 		// round complete
-		m.idle, m.repliesOK, m.queued = 0, 0, false
+		// replies of a later, device-initiated round may already have arrived
+		m.idle, m.repliesOK, m.queued = 0, m.repliesOK-len(rd.Replies), false
 		m.round++
 		if wrote {
 			return false, m.round >= len(m.spec.Rounds), nil
@@ -376,6 +383,7 @@ type c16Device struct {
 	round     int
 	seen      int // owner messages received in the current round
 	activeNow bool
+	deferred  []int // rounds whose replies wait for the next Yield
 }
 
 func (d *c16Device) Transition(active bool) error {
@@ -397,10 +405,7 @@ func (d *c16Device) Receive(ctx context.Context, name string, body io.Reader, re
 	}
 	d.log.devGot[d.spec.Name] = append(d.log.devGot[d.spec.Name], append([]byte(name+"="), b...))
 	d.log.mu.Unlock()
-	// rounds in which the owner sends nothing are invisible to the device
-	for d.round < len(d.spec.Rounds) && len(d.spec.Rounds[d.round].Send) == 0 {
-		d.round++
-	}
+	d.skipSilent()
 	if d.round >= len(d.spec.Rounds) {
 		return nil
 	}
@@ -409,12 +414,29 @@ func (d *c16Device) Receive(ctx context.Context, name string, body io.Reader, re
 	if d.seen < len(rd.Send) {
 		return nil
 	}
-	// the whole round arrived: send the replies
+	// the whole round arrived: send the replies (now, or from the next Yield)
 	d.seen = 0
 	d.round++
+	if rd.ViaYield {
+		d.deferred = append(d.deferred, d.round-1)
+		return nil
+	}
+	return d.sendReplies(d.round-1, respond, yield)
+}
+
+// skipSilent passes over rounds in which neither side says anything, and
+// rounds without owner messages that are answered from Yield are left for Yield.
+func (d *c16Device) skipSilent() {
+	for d.round < len(d.spec.Rounds) && len(d.spec.Rounds[d.round].Send) == 0 && len(d.spec.Rounds[d.round].Replies) == 0 {
+		d.round++
+	}
+}
+
+func (d *c16Device) sendReplies(round int, respond func(string) io.Writer, yield func()) error {
+	rd := d.spec.Rounds[round]
 	for i, rp := range rd.Replies {
-		w := respond(fmt.Sprintf("r%d", ((d.round-1)*3+i)%5))
-		data := c16Frame(c16Payload(d.spec.Name, d.round-1, i, rp.Size, 'd'))
+		w := respond(fmt.Sprintf("r%d", (round*3+i)%5))
+		data := c16Frame(c16Payload(d.spec.Name, round, i, rp.Size, 'd'))
 		parts := max(1, rp.Splits)
 		for p := 0; p < parts; p++ {
 			lo, hi := len(data)*p/parts, len(data)*(p+1)/parts
@@ -433,7 +455,25 @@ func (d *c16Device) Receive(ctx context.Context, name string, body io.Reader, re
 }
 
 func (d *c16Device) Yield(ctx context.Context, respond func(string) io.Writer, yield func()) error {
-	d.log.add("device %s Yield", d.spec.Name)
+	d.log.add("device %s Yield active=%v deferred=%v round=%d", d.spec.Name, d.activeNow, d.deferred, d.round)
+	if !d.activeNow {
+		return nil
+	}
+	for _, r := range d.deferred {
+		if err := d.sendReplies(r, respond, yield); err != nil {
+			return err
+		}
+	}
+	d.deferred = nil
+	// device-initiated rounds: nothing to wait for from the owner
+	d.skipSilent()
+	for d.seen == 0 && d.round < len(d.spec.Rounds) && len(d.spec.Rounds[d.round].Send) == 0 && d.spec.Rounds[d.round].ViaYield {
+		d.round++
+		if err := d.sendReplies(d.round-1, respond, yield); err != nil {
+			return err
+		}
+		d.skipSilent()
+	}
 	return nil
 }
 
